@@ -1,4 +1,6 @@
-(* Driver for the extracted Queue model (C16): reads one case per line, prints one line. *)
+(* Driver for the extracted Queue model (C16): reads one case per line, prints one line.
+   Case kinds: "T|ops" / "O|ops"   one queue of trivial / owning items (model step1 vs ideal step0)
+               "T2|ops" / "O2|ops" two queues A and B (model step2 vs ideal step20) *)
 open Queue_model
 
 let nat_of_int n = let rec go acc k = if k <= 0 then acc else go (S acc) (k-1) in go O n
@@ -11,6 +13,7 @@ let int_of_z = function Z0 -> 0 | Zpos p -> int_of_pos p | Zneg p -> - (int_of_p
 let ints s = if s = "" then [] else List.map int_of_string (String.split_on_char ',' s)
 let zs s = List.map z_of_int (ints s)
 let b s = s = "1"
+let n s = nat_of_int (int_of_string s)
 
 let parse_op (s : string) : op =
   match String.split_on_char ':' s with
@@ -18,27 +21,43 @@ let parse_op (s : string) : op =
   | ["ah"; x] -> OAddHead (z_of_int (int_of_string x))
   | ["rh"] -> ORemoveHead
   | ["rt"] -> ORemoveTail
-  | ["rhm"; n] -> ORemoveHeadMulti (nat_of_int (int_of_string n))
-  | ["rtm"; n] -> ORemoveTailMulti (nat_of_int (int_of_string n))
-  | ["ra"; i] -> ORemoveAt (nat_of_int (int_of_string i))
-  | ["ia"; i; x] -> OInsertAt (nat_of_int (int_of_string i), z_of_int (int_of_string x))
-  | ["rp"; i; x] -> OReplaceAt (nat_of_int (int_of_string i), z_of_int (int_of_string x))
-  | ["g"; i] -> OGet (nat_of_int (int_of_string i))
+  | ["rhm"; k] -> ORemoveHeadMulti (n k)
+  | ["rtm"; k] -> ORemoveTailMulti (n k)
+  | ["ra"; i] -> ORemoveAt (n i)
+  | ["ia"; i; x] -> OInsertAt (n i, z_of_int (int_of_string x))
+  | ["rp"; i; x] -> OReplaceAt (n i, z_of_int (int_of_string x))
+  | ["g"; i] -> OGet (n i)
   | ["cl"; r] -> OClear (b r)
-  | ["es"; n; s; e; sh] -> OEnsure (nat_of_int (int_of_string n), b s, nat_of_int (int_of_string e), b sh)
-  | ["sw"; i; j] -> OSwap (nat_of_int (int_of_string i), nat_of_int (int_of_string j))
-  | ["rv"; f; t] -> OReverse (nat_of_int (int_of_string f), nat_of_int (int_of_string t))
+  | ["es"; k; s; e; sh] -> OEnsure (n k, b s, n e, b sh)
+  | ["sw"; i; j] -> OSwap (n i, n j)
+  | ["rv"; f; t] -> OReverse (n f, n t)
   | ["nm"] -> ONormalize
-  | ["io"; x; f; t] -> OIndexOf (z_of_int (int_of_string x), nat_of_int (int_of_string f), nat_of_int (int_of_string t))
-  | ["lo"; x; f; t] -> OLastIndexOf (z_of_int (int_of_string x), nat_of_int (int_of_string f), nat_of_int (int_of_string t))
+  | ["io"; x; f; t] -> OIndexOf (z_of_int (int_of_string x), n f, n t)
+  | ["lo"; x; f; t] -> OLastIndexOf (z_of_int (int_of_string x), n f, n t)
   | ["atm"; xs] -> OAddTailMulti (zs xs)
   | ["ahm"; xs] -> OAddHeadMulti (zs xs)
-  | ["iia"; i; xs] -> OInsertItemsAt (nat_of_int (int_of_string i), zs xs)
+  | ["iia"; i; xs] -> OInsertItemsAt (n i, zs xs)
   | ["cf"; xs] -> OCopyFrom (zs xs)
   | ["rfi"; x] -> ORemoveFirstInstance (z_of_int (int_of_string x))
   | ["rli"; x] -> ORemoveLastInstance (z_of_int (int_of_string x))
   | ["rai"; x] -> ORemoveAllInstances (z_of_int (int_of_string x))
   | _ -> failwith ("bad op " ^ s)
+
+(* two-queue cases: "b.<op>" = single-queue op on B, "<op>" on A; binary ops name [this] by 0 (A) / 1 (B) *)
+let parse_op2 (s : string) : op2 =
+  if String.length s > 2 && String.sub s 0 2 = "b." then OOn (true, parse_op (String.sub s 2 (String.length s - 2)))
+  else match String.split_on_char ':' s with
+  | ["sc"; t] -> OSwapContents (b t)
+  | ["pl"; t] -> OPlunder (b t)
+  | ["cq"; t] -> OCopyFromQ (b t)
+  | ["as"; t] -> OAssign (b t)
+  | ["eq"] -> OEqual
+  | ["stw"; t] -> OStartsWith (b t)
+  | ["enw"; t] -> OEndsWith (b t)
+  | ["atq"; t; self; st; nm] -> OAddTailMultiQ (b t, b self, n st, n nm)
+  | ["ahq"; t; self; st; nm] -> OAddHeadMultiQ (b t, b self, n st, n nm)
+  | ["iiq"; t; self; i; st; nm] -> OInsertItemsAtQ (b t, b self, n i, n st, n nm)
+  | _ -> OOn (false, parse_op s)
 
 let show_out = function
   | OStatus true -> "ok" | OStatus false -> "err"
@@ -49,16 +68,18 @@ let show_out = function
 
 let jk = z_of_int (-777)
 
+let zl l = String.concat "," (List.map (fun z -> string_of_int (int_of_z z)) l)
+
+(* kind/count/head/tail/slots/[items]/{raw slots}<inactive in-object array>; the raw parts for owning items only *)
 let show_state owning (q : q1) =
-  let items = List.map int_of_z (abs q) in
   let c = int_of_nat q.cnt in
   let stv = match q.st with SNull -> "N" | SSmall -> "S" | SHeap -> "H" in
-  let raw = if owning then String.concat "," (List.map (fun z -> string_of_int (int_of_z z)) q.arr) else "" in
-  Printf.sprintf "%s/%d/%s/%s/%d/[%s]/{%s}" stv c
+  let raw = if owning then zl q.arr else "" in
+  let inl = if owning && q.st <> SSmall then zl q.inl else "" in
+  Printf.sprintf "%s/%d/%s/%s/%d/[%s]/{%s}<%s>" stv c
     (if c = 0 then "_" else string_of_int (int_of_nat q.head))
     (if c = 0 then "_" else string_of_int (int_of_nat q.tail))
-    (int_of_nat (qsize q))
-    (String.concat "," (List.map string_of_int items)) raw
+    (int_of_nat (qsize q)) (zl (abs q)) raw inl
 
 let () =
   let lines = Ocommon.read_lines () in
@@ -68,19 +89,35 @@ let () =
     | Some p ->
       let kind = String.sub line 0 p in
       let body = String.sub line (p+1) (String.length line - p - 1) in
-      let owning = (kind = "O") in
+      let owning = (kind = "O" || kind = "O2") in
+      let two = (kind = "T2" || kind = "O2") in
       let ops = List.filter (fun s -> s <> "") (String.split_on_char ';' body) in
       let buf = Buffer.create 256 in
-      let q = ref empty_q and l = ref [] in
       let ok0 = ref true in
-      List.iter (fun s ->
-        let o = parse_op s in
-        let (q', r) = step1 owning jk small_queue_size !q o in
-        let (l', r0) = step0 !l o in
-        q := q'; l := l';
-        if r <> r0 || List.map int_of_z (abs q') <> List.map int_of_z l' then ok0 := false;
-        Buffer.add_string buf (show_out r); Buffer.add_char buf ' ';
-        Buffer.add_string buf (show_state owning q'); Buffer.add_char buf ';') ops;
+      let e = empty_q owning jk small_queue_size in
+      if not two then begin
+        let q = ref e and l = ref [] in
+        List.iter (fun s ->
+          let o = parse_op s in
+          let (q', r) = step1 owning jk small_queue_size !q o in
+          let (l', r0) = step0 !l o in
+          q := q'; l := l';
+          if r <> r0 || List.map int_of_z (abs q') <> List.map int_of_z l' then ok0 := false;
+          Buffer.add_string buf (show_out r); Buffer.add_char buf ' ';
+          Buffer.add_string buf (show_state owning q'); Buffer.add_char buf ';') ops
+      end else begin
+        let p = ref (e, e) and l = ref ([], []) in
+        List.iter (fun s ->
+          let o = parse_op2 s in
+          let ((a', b'), r) = step2 owning jk small_queue_size !p o in
+          let ((la, lb), r0) = step20 !l o in
+          p := (a', b'); l := (la, lb);
+          if r <> r0 || List.map int_of_z (abs a') <> List.map int_of_z la
+                     || List.map int_of_z (abs b') <> List.map int_of_z lb then ok0 := false;
+          Buffer.add_string buf (show_out r); Buffer.add_char buf ' ';
+          Buffer.add_string buf (show_state owning a'); Buffer.add_char buf '|';
+          Buffer.add_string buf (show_state owning b'); Buffer.add_char buf ';') ops
+      end;
       Printf.printf "%d %s\n" k (Buffer.contents buf);
       if not !ok0 then Printf.printf "%d ORACLE FAIL model L1 deviates from L0 (refinement broken in the model itself)\n" k
   ) lines
